@@ -88,8 +88,10 @@ type v3sys struct {
 	appVals    map[string]*configv3.PathValue
 	connUp     bool
 	cfgWritten bool
-	valsAhead  bool
-	valsTask   string
+	appAhead   bool
+	comAhead   bool
+	appTask    string
+	comTask    string
 	atEnd      bool
 	healing    bool
 	noFault    bool
@@ -389,11 +391,14 @@ func (s *v3sys) onWrite(w WriteRec) {
 			prev := s.cfg
 			s.cfg = c
 			s.cfgWritten = true
-			if w.Task == s.valsTask || (strings.HasPrefix(w.Task, "rec/transaction") && prev != nil &&
-				(prev.Applied.Revision != c.Applied.Revision || prev.Committed.Revision != c.Committed.Revision)) {
-				// the record that goes with the value-map write: written by the same reconcile, or - after a failed or
-				// conflicting first attempt - by a later one that moves a revision
-				s.valsAhead = false
+			// the record that goes with a value-map write: written by the same reconcile, or - after a failed, conflicting
+			// or crashed first attempt - by a later reconcile of the transaction controller that moves that side's cursors
+			tc := strings.HasPrefix(w.Task, "rec/transaction") && prev != nil
+			if w.Task == s.appTask || (tc && (prev.Applied.Revision != c.Applied.Revision || prev.Applied.Ordinal != c.Applied.Ordinal)) {
+				s.appAhead = false
+			}
+			if w.Task == s.comTask || (tc && (prev.Committed.Revision != c.Committed.Revision || prev.Committed.Ordinal != c.Committed.Ordinal)) {
+				s.comAhead = false
 			}
 		}
 	case strings.HasPrefix(w.Prim, "configurations-"):
@@ -401,8 +406,14 @@ func (s *v3sys) onWrite(w WriteRec) {
 		// written the record that goes with it, the value map is ahead of the record; a write of the record by anybody else
 		// in that gap (a mastership or synchronisation status, another transaction's commit from a copy read before) does
 		// not make the pair comparable (see check)
-		s.valsAhead = true
-		s.valsTask = w.Task
+		if strings.HasSuffix(w.Prim, "-applied") {
+			s.appAhead, s.appTask = true, w.Task
+		} else {
+			s.comAhead, s.comTask = true, w.Task
+			if !s.sharedMapSplit() {
+				s.appAhead, s.appTask = true, w.Task
+			}
+		}
 		vals := map[string]*configv3.PathValue{}
 		for k, e := range p.Entries {
 			pv := &configv3.PathValue{}
@@ -530,9 +541,8 @@ func (s *v3sys) check() {
 		return
 	}
 	s.cfgWritten = false
-	if s.valsAhead && !s.atEnd {
-		return
-	}
+	skipCom := s.comAhead && !s.atEnd
+	skipApp := s.appAhead && !s.atEnd
 	// what a reader of the store sees as committed values: the values embedded in the record (status updates keep them
 	// there) overlaid with the entries of the committed value map (store.populate)
 	comView := map[string]*configv3.PathValue{}
@@ -543,7 +553,7 @@ func (s *v3sys) check() {
 	for path, v := range s.comVals {
 		comView[path] = v
 	}
-	if rev := uint64(c.Committed.Revision); rev != 0 {
+	if rev := uint64(c.Committed.Revision); rev != 0 && !skipCom {
 		if tx := s.txs[rev]; tx != nil {
 			for path, v := range tx.Values {
 				v := v
@@ -563,7 +573,7 @@ func (s *v3sys) check() {
 			s.report("consistency", "rolled-back-change-is-still-the-applied-revision", fmt.Sprintf("the rollback apply of change %d is Complete but the applied revision is still %d (the applied values and the device still hold its values); history %s", i, i, v3hist(s.hist)))
 		}
 	}
-	if rev := uint64(c.Applied.Revision); rev != 0 {
+	if rev := uint64(c.Applied.Revision); rev != 0 && !skipApp {
 		if tx := s.txs[rev]; tx != nil {
 			synced := s.connUp && c.Status.State == configv3.ConfigurationStatus_SYNCHRONIZED && c.Status.Mastership != nil &&
 				c.Applied.Term == c.Status.Mastership.Term && string(c.Status.Mastership.Master) == s.inc.conns.Current("t1") && s.quiet()
